@@ -430,6 +430,12 @@ func postC20(cs []*Ctx, r *Report, tier string) {
 
 // boundsArgument tries the named arguments for a site the compiler left.
 func (c *Ctx) boundsArgument(i ssa.Instruction, f, entry *ssa.Function) (string, string) {
+	// T4: the operand is a parameter of an unexported helper and every static call site passes a value whose
+	// length the caller has already checked (the guard moved out of sight of the compiler's prove pass when
+	// the helper was extracted)
+	if arg, ok := c.callerLengthGuard(i); ok {
+		return arg, "ok"
+	}
 	sl, ok := i.(*ssa.Slice)
 	if !ok {
 		return "index expression without a known argument", "bad"
@@ -737,4 +743,113 @@ func loadedRecvField(cond ssa.Value, f *ssa.Function) string {
 		return ""
 	}
 	return fieldName(fa.X.Type(), fa.Field)
+}
+
+// callerLengthGuard: i indexes or slices, with constant bounds, a parameter of
+// its function f; f is unexported, not used as a value, and at every static
+// call site the argument bound to that parameter is dominated by a length
+// guard that makes the access valid. Returns the argument text.
+func (c *Ctx) callerLengthGuard(i ssa.Instruction) (string, bool) {
+	var x ssa.Value
+	need := int64(-1)
+	switch v := i.(type) {
+	case *ssa.Slice:
+		x = v.X
+		for _, b := range []ssa.Value{v.Low, v.High} {
+			if b == nil {
+				continue
+			}
+			k, ok := constInt(b)
+			if !ok {
+				return "", false
+			}
+			if k > need {
+				need = k
+			}
+		}
+	case *ssa.IndexAddr:
+		x = v.X
+		if k, ok := constInt(v.Index); ok {
+			need = k + 1
+		}
+	case *ssa.Index:
+		x = v.X
+		if k, ok := constInt(v.Index); ok {
+			need = k + 1
+		}
+	}
+	p, ok := x.(*ssa.Parameter)
+	if !ok || need < 0 {
+		return "", false
+	}
+	f := i.Parent()
+	if f.Object() == nil || f.Object().Exported() || f.Parent() != nil {
+		return "", false
+	}
+	idx := paramIndex(f, p)
+	sites := 0
+	okAll := true
+	for _, g := range c.allRepoFuncs() {
+		allInstrs(g, func(j ssa.Instruction) {
+			// the function used as a value anywhere: give up
+			for _, op := range j.Operands(nil) {
+				if op != nil && *op == ssa.Value(f) {
+					if cj, isCall := j.(ssa.CallInstruction); !isCall || cj.Common().Value != ssa.Value(f) {
+						okAll = false
+					}
+				}
+			}
+			cj, ok := j.(ssa.CallInstruction)
+			if !ok || staticCallee(cj.Common()) != f {
+				return
+			}
+			if _, isGo := j.(*ssa.Go); isGo {
+				okAll = false
+				return
+			}
+			sites++
+			if idx < 0 || idx >= len(cj.Common().Args) {
+				okAll = false
+				return
+			}
+			a := cj.Common().Args[idx]
+			min := int64(-1)
+			for _, gd := range guardsOf(j.Block()) {
+				xx, yy, op, isCmp := cmpGuard(gd)
+				if !isCmp {
+					continue
+				}
+				lc, ok := xx.(*ssa.Call)
+				if !ok {
+					continue
+				}
+				b, ok := lc.Call.Value.(*ssa.Builtin)
+				if !ok || b.Name() != "len" || !(lc.Call.Args[0] == a || sameExpr(lc.Call.Args[0], a)) {
+					continue
+				}
+				k, ok := constInt(yy)
+				if !ok {
+					continue
+				}
+				// cmpGuard normalises to a comparison that HOLDS on this path
+				var m int64 = -1
+				switch op {
+				case token.GEQ, token.EQL:
+					m = k
+				case token.GTR:
+					m = k + 1
+				}
+				if m > min {
+					min = m
+				}
+			}
+			if min < need {
+				okAll = false
+			}
+		})
+	}
+	if sites == 0 || !okAll {
+		return "", false
+	}
+	return fmt.Sprintf("T4: operand is parameter %s of the unexported helper %s; all %d call sites pass a value whose length was checked to be >= %d before the call", p.Name(), fnKey(f), sites, need), true
 }
